@@ -5,6 +5,7 @@ from ..core import Property, AnalysisError, unparse, norm, walk_no_nested
 from ..sym import Interp, S, term, show, State
 from ..cfg import build_cfg
 from ..dfa import ReachingDefs
+from ..query import parse_chain
 from .. import mut
 
 PROP = Property(
@@ -439,6 +440,32 @@ def file_handoff(ctx):
         else:
             exp = 'self.network.name' if f == 'network' else 'self.' + f
             ctx.match(q, 'constructor argument %s' % f, bound[f], exp, fn, c, 'the exported transaction differs from the one that was signed')
+
+
+@PROP.obligation('C10.cosigner-order', canaries=[
+    mut.replace_expr('wallets', 'Wallet.__init__', 'DbWallet.cosigner_id', 'DbWallet.name', 'cosigner wallets reloaded in name order', nth=0),
+])
+def cosigner_order(ctx):
+    """Wallet.cosigner is indexed by cosigner id (self.cosigner[cosigner_id] in keys_for_path / new_keys / public_master) and, with
+    sort_keys off, its order is the key order of every redeem script. Wallet.create appends the cosigner wallets in id order; Wallet.__init__
+    reloads them with a query that must therefore be ordered by the numeric column DbWallet.cosigner_id - ordering by the name
+    ('w-cosigner-10' < 'w-cosigner-2') permutes the list for wallets with more than ten cosigners."""
+    q = 'wallets:Wallet.__init__'
+    fn = ctx.repo.func(q)
+    asg = [n for n in ast.walk(fn) if isinstance(n, ast.Assign) and 'DbWallet.parent_id == self.wallet_id' in norm(n.value)]
+    if len(asg) != 1:
+        ctx.undecided('Wallet.__init__: query that reloads the cosigner wallets not found')
+    qs = parse_chain(asg[0].value)
+    if qs is None:
+        ctx.undecided('Wallet.__init__: cosigner reload is not a query chain')
+    ctx.saw('cosigner wallets reloaded with order_by %s' % qs.order_by)
+    uses = sum(1 for m_ in ('Wallet.keys_for_path', 'Wallet.new_keys', 'Wallet.public_master') for n in ast.walk(ctx.repo.func('wallets:' + m_))
+               if isinstance(n, ast.Subscript) and norm(n.value) == 'self.cosigner' and 'cosigner_id' in norm(n.slice))
+    ctx.saw('self.cosigner[<cosigner id>] is used %d times' % uses)
+    ctx.floor(uses, 2, 'uses of self.cosigner[cosigner_id]')
+    if qs.order_by != ['DbWallet.cosigner_id']:
+        ctx.violate(q, 'the cosigner wallets are reloaded in the order %s; the list is indexed by cosigner id and decides the key order of unsorted redeem scripts' % (qs.order_by or 'of the database'), asg[0],
+                    'a 2-of-12 wallet with sort_keys=False derives other addresses after it is reopened than before, and than its cosigners do')
 
 
 @PROP.obligation('C10.raw-handoff')
